@@ -172,30 +172,11 @@ func cmdList(args []string) int {
 					stats["create.refused"]++
 				}
 			}
-			// ... and several at the same time (every one of them must be listed afterwards)
-			if call == 7 {
-				var cwg sync.WaitGroup
-				var cmu sync.Mutex
-				for j := 0; j < 6; j++ {
-					cwg.Add(1)
-					go func(j int) {
-						defer cwg.Done()
-						name := fmt.Sprintf("Par %d", j)
-						r, pk, _, _ := node.AcctMgr.Generate(ctx, &checker.Credentials{Client: "admin"}, "Wallet 1/"+name, []byte("pass"), 1, 1)
-						if r == core.ResultSucceeded {
-							cmu.Lock()
-							nextID++
-							overlay = append(overlay, acc{"Wallet 1", name, nextID, pk})
-							stats["created.concurrently"]++
-							cmu.Unlock()
-						}
-					}(j)
-				}
-				cwg.Wait()
-			}
 			// ... the cache insertions of overlapping creations at the very same time: what concurrent Generate requests
 			// do (services/process/standard generate: CreateAccount, then fetcher.AddAccount, no common lock), with
-			// the slow key-store encryption taken out of the window
+			// the slow key-store encryption taken out of the window.  (The creations themselves are made one after
+			// the other: the in-memory wallet store of the test fixtures is not safe for concurrent writers - whole
+			// Generate requests at the same time crashed the harness inside that store, not inside Dirk.)
 			if call == 9 && ci < 4 {
 				if w, err := node.Fetcher.FetchWallet(ctx, "Wallet 1"); err == nil {
 					if l, ok := w.(e2wtypes.WalletLocker); ok {
